@@ -264,7 +264,14 @@ def judge(ctx, traces, metas):
                                % (v, step, m["src"], ev.get("k"), ev.get("s"), ev.get("i")))
             continue
         crash = any(e["e"] == "crash" for e in t[:step])
-        sig = "C17/%s/op=%s,step=%s,target=%s" % (v, ev["k"], ev["s"], pre_class(ev))
+        if v in ("NeverPartialContent",):
+            sig = "C17/%s/op=%s,step=%s" % (v, ev["k"], ev["s"])
+        elif v in ("RefusesLiveForeign", "TakesOverStale"):
+            sig = "C17/%s/op=%s,target=%s" % (v, ev["k"], pre_class(ev))
+        elif v == "RenameMoves":
+            sig = "C17/%s/op=%s" % (v, ev["k"])
+        else:
+            sig = "C17/%s/op=%s,step=%s" % (v, ev["k"], ev["s"])
         ops = [(e["i"], e["k"], e["to"], e.get("fin")) if e["e"] == "start" else (e["e"], e.get("x"), e.get("c"))
                for e in t[:step] if e["e"] in ("start", "foreign", "die", "crash")]
         ctx.violation(sig, "%s: instance %d, %s, at system call %s (before %s, right after %s, then %s)%s; "
